@@ -95,6 +95,18 @@ theorem NodeOrd.eq_key (a b : K × Int) : nodeEq a b = true ↔ a.1 = b.1 := by 
 theorem NodeOrd.cmp_value (a b : K × Int) : (nodeCmp a b = .lt ↔ a.2 < b.2) ∧ (nodeCmp a b = .eq ↔ a.2 = b.2) :=
   NodeOrd.cmp_value' a b
 
+/-- `Edge` comparison: in digraph `==` holds exactly for equal endpoints (the value is ignored), in the undirected
+    flavours exactly for equal values; the order is the order of the values everywhere -/
+theorem EdgeOrd.eq_spec (a b : K × K × Int) :
+    (edgeEq true a b = true ↔ a.1 = b.1 ∧ a.2.1 = b.2.1) ∧ (edgeEq false a b = true ↔ a.2.2 = b.2.2) := by
+  simp [edgeEq]
+theorem EdgeOrd.cmp_value (a b : K × K × Int) :
+    (edgeCmp a b = .lt ↔ a.2.2 < b.2.2) ∧ (edgeCmp a b = .eq ↔ a.2.2 = b.2.2) :=
+  NodeOrd.cmp_value' (a.1, a.2.2) (b.1, b.2.2)
+/-- in the undirected flavours `==` is the equivalence of the order (as `Ord` requires) -/
+theorem EdgeOrd.undirected_consistent (a b : K × K × Int) : edgeEq false a b = true ↔ edgeCmp a b = .eq := by
+  rw [(EdgeOrd.eq_spec a b).2, (EdgeOrd.cmp_value a b).2]
+
 /-- priority-first search (`min()` and `max()`) on a graph built by a history never runs out of fuel
     when given `number of distinct keys + 1`: plain, transposed and undirected, any filter, target and mode -/
 theorem Pfs.history_fuel (ops : List (Op K E)) (acc : K → K → E → Bool) (nval : K → Int) (kind : Kind)
